@@ -36,6 +36,7 @@ from ZODB._compat import PersistentUnpickler
 from ZODB._compat import ascii_bytes
 from ZODB.interfaces import BlobError
 from ZODB.POSException import POSKeyError
+from ZODB.POSException import UndoError
 
 
 logger = logging.getLogger('ZODB.blob')
@@ -680,6 +681,20 @@ class BlobStorageMixin:
     def __untransform_record_data(self, record):
         return record
 
+    def _same_blob_data(self, oid, tid1, tid2):
+        try:
+            with open(self.fshelper.getBlobFilename(oid, tid1), 'rb') as f1:
+                with open(self.fshelper.getBlobFilename(oid, tid2),
+                          'rb') as f2:
+                    while 1:
+                        d1 = f1.read(1 << 16)
+                        if d1 != f2.read(1 << 16):
+                            return False
+                        if not d1:
+                            return True
+        except OSError:
+            return False
+
     def is_blob_record(self, record):
         if record:
             return is_blob_record(self.__untransform_record_data(record))
@@ -853,6 +868,24 @@ class BlobStorage(BlobStorageMixin):
         return result
 
     def undo(self, serial_id, transaction):
+        # All records of a blob are the same, so the storage cannot see
+        # that a later transaction changed the blob: it would go back to
+        # the old data and silently drop the later change.
+        tid = decodebytes(serial_id + b'\n')
+        with self._lock:
+            pending = {oid for oid, _ in self.dirty_oids}
+            for oid in self.fshelper.getOIDsForSerial(tid):
+                if oid in pending:
+                    continue    # changed by an earlier undo in this txn
+                try:
+                    ctid = self.__storage.getTid(oid)
+                except POSKeyError:
+                    continue
+                if ctid != tid and not self._same_blob_data(oid, tid, ctid):
+                    raise UndoError(
+                        "Some data were modified by a later transaction",
+                        oid)
+
         undo_serial, keys = self.__storage.undo(serial_id, transaction)
         # serial_id is the transaction id of the txn that we wish to undo.
         # "undo_serial" is the transaction id of txn in which the undo is
